@@ -36,6 +36,10 @@ namespace vf {
 inline int& exempt_depth() { static int d = 0; return d; }
 struct Exempt { Exempt() { ++exempt_depth(); } ~Exempt() { --exempt_depth(); } };
 
+// coverage counter bumped from inside an adapter (i.e. while a library call scope is open): the
+// counter map node is harness bookkeeping, not library memory
+inline void xcount(const std::string& name, uint64_t by = 1) { Exempt e; count(name, by); }
+
 struct C19Ctx {
   std::string family = "?";   // family/object kind of the program in flight (part of violation keys)
   std::string op = "?";       // lifecycle operation in flight
